@@ -142,6 +142,8 @@ class ManagedEnv(Env):
             # user code may block here: a schedule point unless the calling thread holds a pool lock (then no other
             # thread can observe the pool anyway); the skipped points are logged so that the native driver follows
             if not s.lock_held(M, st, th): return [('yield', st, 'cb.detach')]
+            if getattr(M, 'lock_probe', False):
+                st.logev('env', 'cblocked', 'cb.detach'); return [('yield', st, 'cb.detach')]
             st.logev('env', 'cbskip', 'cb.detach')
         return s.ret(st, UNIT)
 
@@ -195,8 +197,11 @@ class ManagedEnv(Env):
             outs = []
             pt = s.cfg.get('cb_points') and not M.task_mode
             free = pt and not s.lock_held(M, st, th)
+            probe = pt and not free and getattr(M, 'lock_probe', False)
+            if probe: free = True
             for o in s.cfg['pred']:
                 st2 = st.clone(); st2.logev('env', 'pred', oid, o)
+                if probe and o != 'panic': st2.logev('env', 'cblocked', 'cb.pred')
                 if pt and not free and o != 'panic': st2.logev('env', 'cbskip', 'cb.pred')
                 if o == 'keep': outs.append(('yield', st2, 'cb.pred', True) if free else ('ret', st2, True))
                 elif o == 'remove':
